@@ -5,8 +5,17 @@
   constructors + `Rt::add`; `Cfg.fixed` is the source as it is now, tied to the
   working tree by the correspondence run `harness/src/bin/c18.rs`;
   `Cfg.pinned` is the pinned tree).  Helper lemmas: `RotoV/Lemmas/Registration.lean`.
+
+  `library!`: the `use` declarations it accepts are `RotoV.Use.UseTree`
+  (`RotoV/Model/UseTree.lean`); `flatten_use_tree` of `macros/src/lib.rs` is
+  regenerated from the source on every run (`RotoV/Generated/FlattenUse.lean`)
+  and the theorems of `Props/C18Use.lean` (T5) are stated over that generated
+  function; they live in a module of their own so that a change to the macro
+  breaks exactly those obligations and a change to the lexer's keyword table
+  exactly the ones here.
 -/
 import RotoV.Lemmas.Registration
+import RotoV.Lemmas.RegistrationUse
 import RotoV.Generated.Keywords
 
 namespace RotoV.C18
@@ -94,10 +103,11 @@ theorem add_fails_iff_partial (lex : Name → Lex) (st : St) (items : Items) :
    replaced by the Roto name of the registered type; and at no other path.
 
    Proved below (`reachable_partial`): the declared-path half for functions,
-   constants and types under any module nesting.  Missing: methods and
-   constants inside impl blocks, the paths named by `use` items, and the
-   "nowhere else" half; the correspondence run checks all three on every
-   generated library.  Refuted for a `use` *inside* a module
+   constants and types under any module nesting; `reachable_use_paths` /
+   `reachable_through_use`: the paths named by `use` items (every path bound
+   to the scope its own segments lead to; functions and constants end to end).
+   Missing: methods and constants inside impl blocks and the "nowhere else"
+   half; the correspondence run checks both on every generated library.  Refuted for a `use` *inside* a module
    (`use_in_module_lands_in_parent`, known finding). -/
 
 /-- **T3, declared-path half** for functions, constants and types. -/
@@ -130,6 +140,72 @@ theorem reachable_partial (lex : Name → Lex) (st st' : St) (hw : WF st) (items
     simp only [HoldsItem, QDecl] at hq
     obtain ⟨h1, d, sc, h2, h3⟩ := hq
     exact ⟨s, d, sc, hs, by simp [convTy, h1], resolvePath_scopeAt st' p s n _ hs h2, h3⟩
+
+/-- **T3, the paths a `use` names.** After a successful registration, every
+    path of every `use` item of the library (at the top or inside modules — the
+    import pass hands a module's children the enclosing scope, see
+    `use_in_module_lands_in_parent`) is bound at the root: its last segment is
+    an import whose target is that name in the scope reached by walking the
+    other segments as nested modules / types; and unless the root itself
+    declares the name, a script path that starts with it continues from the
+    target.  (No member of the list sees another member's segments: the
+    statement is per path.) -/
+theorem reachable_use_paths (lex : Name → Lex) (st st' : St) (items : Items)
+    (h : register Cfg.fixed lex st items = .ok st')
+    (ps : List (List Name)) (hu : UseIn items ps) (p : List Name) (hp : p ∈ ps) :
+    ∃ last s, p.getLast? = some last ∧ scopeAt st' [] p.dropLast = some s ∧
+      st'.imports [] last = some ⟨s, last⟩ ∧
+      (st'.decls ⟨[], last⟩ = none → ∀ rest,
+        resolvePath st' (last :: rest) =
+          match st'.decls ⟨s, last⟩ with
+          | some d => resolveRest st' d rest
+          | none => none) := by
+  have hadd : add Cfg.fixed lex st items = .ok st' := by
+    unfold register at h
+    split at h
+    · exact h
+    · cases h
+  have b := add_uses_bound lex st st' items hadd ps hu p hp
+  obtain ⟨last, s, h1, h2, h3⟩ := b
+  obtain ⟨last', s', h1', h2', h4⟩ := resolvePath_bound st' p ⟨last, s, h1, h2, h3⟩
+  rw [h1] at h1'; cases h1'
+  rw [h2] at h2'; cases h2'
+  exact ⟨last, s, h1, h2, h3, h4⟩
+
+/-- **T3, end to end for a `use` of a function or constant**: the bare name
+    resolves, from a script, to the declaration of the item that sits at the
+    used path — identity and declared signature. -/
+theorem reachable_through_use (lex : Name → Lex) (st st' : St) (hw : WF st) (items : Items)
+    (h : register Cfg.fixed lex st items = .ok st')
+    (ps : List (List Name)) (hu : UseIn items ps) (pre : List Name) (n : Name)
+    (hp : pre ++ [n] ∈ ps) (hroot : st'.decls ⟨[], n⟩ = none) :
+    (∀ ps0 r tag, ItemAt items pre (.function n ps0 r tag) →
+      ∃ ps' r', convTys st' ps0 = .ok ps' ∧ convTy st' r = .ok r' ∧
+        resolvePath st' [n] = some ⟨.function ps' r' tag, none⟩) ∧
+    (∀ ty tag, ItemAt items pre (.constant n ty tag) →
+      ∃ ty', convTy st' ty = .ok ty' ∧ resolvePath st' [n] = some ⟨.const ty' tag, none⟩) := by
+  have hadd : add Cfg.fixed lex st items = .ok st' := by
+    unfold register at h
+    split at h
+    · exact h
+    · cases h
+  have hall := add_post lex hw items hadd
+  obtain ⟨last, s, h1, h2, _, h4⟩ := reachable_use_paths lex st st' items h ps hu (pre ++ [n]) hp
+  have hl : last = n := by simpa using h1.symm
+  subst hl
+  simp only [List.dropLast_concat] at h2
+  have hres := h4 hroot []
+  refine ⟨fun ps0 r tag hi => ?_, fun ty tag hi => ?_⟩
+  · obtain ⟨s', hs', hq⟩ := holds_itemAt hi [] hall
+    rw [h2] at hs'; cases hs'
+    simp only [HoldsItem, QDecl] at hq
+    obtain ⟨ps', r', c1, c2, c3⟩ := hq
+    exact ⟨ps', r', c1, c2, by rw [hres, c3]; rfl⟩
+  · obtain ⟨s', hs', hq⟩ := holds_itemAt hi [] hall
+    rw [h2] at hs'; cases hs'
+    simp only [HoldsItem, QDecl] at hq
+    obtain ⟨ty', c1, c2⟩ := hq
+    exact ⟨ty', c1, by rw [hres, c2]; rfl⟩
 
 /-! ## T4 — the order of items does not matter -/
 
@@ -200,6 +276,15 @@ example :
 /-- non-vacuity of T3: a function two modules deep -/
 example : ItemAt (il [.module 0 (il [.module 1 (il [fn0 2 7])]), .use [[0, 1, 2]]]) [0, 1] (fn0 2 7) :=
   .inside 0 _ (.inside 1 _ (.here _ _))
+
+/-- non-vacuity of `reachable_use_paths` / `reachable_through_use`: a two-path `use` next to the modules -/
+example : UseIn (il [.module 0 (il [.module 1 (il [fn0 2 7]), fn0 3 8]), .use [[0, 1, 2], [0, 3]]]) [[0, 1, 2], [0, 3]] :=
+  .there _ (.here _ _)
+example :
+    (match register Cfg.fixed lexV st0 (il [.module 0 (il [.module 1 (il [fn0 2 7]), fn0 3 8]), .use [[0, 1, 2], [0, 3]]]) with
+     | .ok st => (resolvePath st [2], resolvePath st [3], st.decls ⟨[], 3⟩)
+     | _ => (none, none, none)) =
+    (some ⟨.function [] .unit 7, none⟩, some ⟨.function [] .unit 8, none⟩, none) := by decide
 
 /-- non-vacuity of T4: a reordering at two levels, both orders succeed -/
 example :
